@@ -93,4 +93,21 @@ CLAIMED = {
   "note": "The metamorphic runs are testing of the implementation (failing-input search), not proof; gene coordinates are rotated by the harness, area images by the extracted Coq model.",
   "technique": "machine-checked proof in Coq 8.16.1 (cache transparency, distance invariance) + metamorphic correspondence run of the real pipeline against the Coq rotation model",
  },
+ "C06": {
+  "text": ("Partial. Proof about a Gallina model of Record.create_regions for records whose areas do not span the origin (every linear record, "
+           "circular records without origin-spanning areas): CDSCollection ordering (start, -length), the sweep joining an area to the running "
+           "section when it overlaps the section's location (hull), the first/last fix-up, one region per section. The sweep is C03's with cutoff 0, "
+           "so the C03 invariant proof is reused. Proved for every record length and every multiset of areas (nested, chained, touching) in any "
+           "supply order (C06/Theorems.v): C06_components_linear - sections are exactly the connected components of the share-a-base graph (each "
+           "area in exactly one, none empty, members chained through overlapping pairs, areas of different sections never share a base; "
+           "C06_share_base_meaning ties the relation to 'exists a common base'), section location = tight hull; C06_regions_disjoint_sorted - "
+           "region locations pairwise disjoint and increasing (so add_region never refuses) and the first/last fix-up never fires. NOT "
+           "modelled/proved: origin-spanning areas (design-time finding origin_spanning_area), numbering and parent links (checked on the "
+           "implementation by oracles on every run: numbers 1..n identify the region, no area/gene links to a region no longer in the record after "
+           "clear_regions / clear_subregions / re-creation, every area of the record has a parent when regions exist). Correspondence: histories on a "
+           "REAL Record with real SubRegion / Protocluster+CandidateCluster / CDS objects: areas added in random order, create_regions, then one of "
+           "{clear+recreate, clear_subregions, add+clear+recreate}; regions (location + member areas) compared with the model after every create; "
+           "2.5k histories quick / 40k thorough."),
+  "note": "Candidate clusters are single-protocluster DummyCandidateCluster objects of the repo's test helpers; Region/SubRegion/Record are the real classes.",
+ },
 }
